@@ -114,6 +114,11 @@ MUT += [
 ]
 
 
+MUT += [
+    ("M100", "penguin/src/client/handle_remote/http.rs", "    let host = Bytes::copy_from_slice(target.host().as_bytes());", "    let host = Bytes::copy_from_slice(target.as_str().as_bytes());", ["C01"], ["C01"]),
+]
+
+
 # behaviour-preserving refactors: every listed check must stay silent
 EQUIV = [
     ("E01", "penguin-mux/src/stream.rs", "if new >= self.rwnd_threshold {", "if !(new < self.rwnd_threshold) {", ["C03"]),
